@@ -129,7 +129,11 @@ def run(rep, facts, tier):
                              x[1].endswith('rc::Rc<T, A> as core::ops::deref::Deref>::deref') or 'RefCell' in x[1]) for x in expr_walk(e))
             if r is not None:
                 adt, flds, via, sh = r
-                ok = flds[0] == 'return_stack' and fn in ('state::State::fetch_and_run', 'state::State::reverse_changes')
+                FRAME_OWNERS = {'state::State::fetch_and_run': 'VM step', 'state::State::reverse_changes': 'undo'}
+                ok = flds[0] == 'return_stack' and fn in FRAME_OWNERS
+                if not ok and flds[0] == 'return_stack':
+                    from .c13 import _only_called_by
+                    ok = _only_called_by(fx, fn, FRAME_OWNERS, set()) is not None     # a helper of the VM step / undo
                 why = 'current frame locals (frame-private)' if ok else '%s mutates a collection stored in State.%s in place (%s)' % (short(fn), '.'.join(flds), name)
             elif via_shared:
                 ok = False
